@@ -225,6 +225,17 @@ impl QueryHashCache {
         let exact_lookup = {
             let state = self.state.read();
             match state.cache.get(&query_key) {
+                // The key is a hash of the query quantized to 16 bits per lane (saturating), so
+                // different queries can share it -- e.g. every lane with |value| >= 1 collapses
+                // to the same bucket. Only the entry's own query may be answered as "exact".
+                Some(_)
+                    if !state
+                        .query_embeddings
+                        .get(&query_key)
+                        .is_some_and(|stored| Self::same_query(stored, query_embedding)) =>
+                {
+                    ExactLookup::Miss
+                }
                 Some(cached) if cached.requested_k >= k => {
                     let take = k.min(cached.results.len());
                     ExactLookup::Hit(cached.results[..take].to_vec())
@@ -798,6 +809,17 @@ impl QueryHashCache {
         }
 
         hasher.finish()
+    }
+
+    /// Whether `query` is the query an entry was stored for, up to the hash quantization step.
+    #[inline]
+    fn same_query(stored: &[f32], query: &[f32]) -> bool {
+        const QUANTIZATION_STEP: f32 = 1.0 / 32768.0;
+        stored.len() == query.len()
+            && stored
+                .iter()
+                .zip(query.iter())
+                .all(|(a, b)| (a - b).abs() <= QUANTIZATION_STEP)
     }
 
     /// Find similar query using cosine similarity
